@@ -12,6 +12,7 @@ the kernel, so the equality theorems are stated for float-free values (`noFloat`
 -/
 import Verif.Model.Variant
 import Verif.Lemmas.ValueLemmas
+import Verif.Props.C20Heap
 namespace Verif
 
 /-! ## 1. the host-type table -/
